@@ -457,6 +457,7 @@ func main() {
 	cronrecFacts(&b) // C02 facts (cronrec.go)
 	jcstatusFacts(&b) // C15 facts (jcstatus.go)
 	taskfnFacts(&b)
+	retryFacts(&b) // C20 facts (retry_facts.go)
 	validationFacts(&b) // C17 facts (validation_facts.go)
 	mutationFacts(&b) // C16 facts (mutation_facts.go)
 	f.Config.emit(&b)
